@@ -323,11 +323,12 @@ impl Database {
             // Run recovery through recuperator
             recuperator.run_recovery(&analysis).map_err(box_err)?;
 
-            // Truncate WAL
-            pager.write().truncate_wal().map_err(box_err)?;
-
             // Commit recovery transaction
             tx_ctx.commit_transaction().map_err(box_err)?;
+
+            // Checkpoint: the recovered pages and the header must reach the data file before the
+            // log they were rebuilt from is truncated (Pager::flush truncates the WAL last).
+            pager.write().flush().map_err(box_err)?;
 
             Ok(())
         })?;
